@@ -2,7 +2,7 @@
    same-priority conflict (C13 errors_exact), for every scanned-file list in ascending priority order with unique device
    names per file. *)
 From Coq Require Import String Ascii List Bool Arith ZArith Lia.
-From CDI Require Import Base SpecModel Parser Paths Oci Apply Cache CacheProofs.
+From CDI Require Import Base SpecModel Parser Paths Oci Apply Cache CacheProofs SortProofs.
 Import ListNotations.
 Open Scope string_scope.
 
@@ -359,3 +359,12 @@ Qed.
 Theorem errors_exact_fs fs p :
   unique_names (scan fs) -> (In p (error_keys (refresh fs)) <-> In p (expected_error_keys (scan fs))).
 Proof. intro U. apply errors_exact; [apply scan_sorted|exact U]. Qed.
+
+(* as lists: the sorted, duplicate-free key set of GetErrors() IS the canonical listing of failing + conflicting files *)
+Theorem errors_eq files :
+  sorted (loaded files) -> unique_names files -> error_keys (refresh_files files) = expected_error_keys files.
+Proof.
+  intros S U. unfold error_keys, expected_error_keys. apply canonical_listing. intro p.
+  pose proof (errors_exact files p S U) as H. unfold error_keys, expected_error_keys in H.
+  rewrite !In_sort_strings, !In_dedup_s in H. exact H.
+Qed.
